@@ -11,12 +11,27 @@ impl Sim {
                 self.now = self.now.saturating_add(*d);
                 Vec::new()
             }
+            Op::AdvanceHalfRtos(m) => {
+                let rto = self.reqs.last().map(|r| r.rto).unwrap_or(self.cfg.rto_us * 1000);
+                self.now = self.now.saturating_add(*m as u64 * (rto / 2));
+                Vec::new()
+            }
             Op::Timer(k) => {
                 let e = self.min_expiry();
                 match (k, e) {
                     (TimerKind::Exact, Some(e)) => self.now = self.now.max(e),
                     (TimerKind::Early(d), Some(e)) => self.now = self.now.max(e.saturating_sub((*d).max(1))),
                     (TimerKind::Late(d), Some(e)) => self.now = self.now.max(e.saturating_add(*d)),
+                    (TimerKind::LateHalfRtos(m), Some(e)) => {
+                        let rto = self
+                            .awaiting()
+                            .iter()
+                            .map(|i| &self.reqs[*i])
+                            .find(|r| r.expiry == e)
+                            .map(|r| r.rto)
+                            .unwrap_or(0);
+                        self.now = self.now.max(e.saturating_add(*m as u64 * (rto / 2)));
+                    }
                     _ => {}
                 }
                 self.do_timer(false)
@@ -599,12 +614,7 @@ impl Sim {
                 }
             }
             Ok(()) => {
-                if events.len() != 1 {
-                    out.push(finding(
-                        &["C05"],
-                        format!("accepted buffer produced events {:?}, expected exactly one", ev_names(&events)),
-                    ));
-                }
+                // how many events an accepted buffer produces is not fixed by any property; final outcomes are counted per id below
             }
         }
         // C10: fingerprint gate
